@@ -644,7 +644,11 @@ func buildInterpreterB(dir string) (string, string, error) {
 	os.WriteFile(filepath.Join(dir, "go.mod"), []byte("module progb\n\ngo 1.23\n"), 0o644)
 	os.WriteFile(filepath.Join(dir, "main.go"), []byte(src), 0o644)
 	bin := filepath.Join(dir, "prog.out")
-	cmd := exec.Command(bLlgo, "build", "-o", bin, ".")
+	// -O0: LLVM 14's optimiser, with the opaque pointers this sandbox has to force
+	// on, merges getelementptr instructions that differ only in their source
+	// element type (seen in runtime.typehash: the array length read from the
+	// TFlag field's address); such miscompilations are the sandbox's, not llgo's
+	cmd := exec.Command(bLlgo, "build", "-O0", "-o", bin, ".")
 	cmd.Dir = dir
 	cmd.Env = bEnv()
 	out, err := cmd.CombinedOutput()
@@ -708,6 +712,8 @@ func (prop) ExtraPhase(tier string, seed uint64, deadline time.Time) (*driver.Ex
 		budget = d
 	}
 	stop := time.Now().Add(budget)
+	// however long the build took on a loaded machine, a minimum is always run
+	const minRuns = 600
 	const workers = 16
 	type found struct {
 		idx        int
@@ -727,12 +733,12 @@ func (prop) ExtraPhase(tier string, seed uint64, deadline time.Time) (*driver.Ex
 		go func(w int) {
 			defer wg.Done()
 			for i := w; i < maxRuns; i += workers {
-				if time.Now().After(stop) {
+				mu.Lock()
+				nv, done := len(viols), runs
+				mu.Unlock()
+				if time.Now().After(stop) && done >= minRuns {
 					return
 				}
-				mu.Lock()
-				nv := len(viols)
-				mu.Unlock()
 				if nv >= 3 {
 					return
 				}
